@@ -47,6 +47,7 @@ from engine.common import setup_paths
 from ref import c19_state as st
 
 PROPERTY = 'C19'
+SECOND_PASS = ('run_G', 'run_L', 'run_O')     # see engine/common._run_shard
 LEVEL = 'model_checking'
 EXHAUSTIVE = True
 RULE = ('A: from each of 31 start formulas, every chain of <=2 (quick; <=3 from two tiny starts) / <=3 '
